@@ -295,7 +295,7 @@ class World:
              b'read e:value', b'read e:value', b'read e', b'read e:_w', b'read e:_w']
     HOSTILE = [b'change d:_x "3"', b'change d:_x 3.5', b'change d:_x 11', b'change d:_x', b'change d:_x {bad', b'change d:_x [1', b'change d:_ro 1',
                b'read d:nosuch', b'read nosuch', b'read', b'read d:value extra', b'read d:value 1', b'change nosuch:x 1', b'do d:_twice "2"',
-               b'do d:_twice 7', b'do d:_twice', b'do d:nosuch', b'do d', b'do', b'change', b'change d:_x NaN', b'change d:target Infinity',
+               b'do d:_twice 7', b'do d:_twice', b'do d:nosuch', b'do d', b'do', b'change', b'change d:_x NaN', b'change d:target NaN', b'change d:target NaN', b'read d:target', b'change d:target Infinity',
                b'change d:target -Infinity', b'change d:target 1e999', b'request a b', b'_ident', b'_ident x 1', b'help me', b'handle_read d',
                b'__init__', b'secnode', b'log', b'shutdown', b'restart', b'name', b'activate nosuch', b'activate d:nosuch', b'activate d 1',
                b'deactivate x 1', b'ping tok 1', b'ping  ', b'PING', b'Describe', b' describe', b'describe  ', b'\tping a', b'ping a\t',
